@@ -43,6 +43,9 @@ type metadataLookup struct {
 	fields map[field.ID]*aggregation.Aggregator
 
 	err error
+	// missing is the first selected field this node has never seen: it has no data of it, the other
+	// fields of the statement are still answered (another node may know the field)
+	missing error
 }
 
 // NewMetadataLookup creates a metadataLookup instance.
@@ -161,6 +164,10 @@ func (op *metadataLookup) selectList() error {
 			return op.err
 		}
 	}
+	if len(op.fields) == 0 && op.missing != nil {
+		// none of the selected fields is known
+		return op.missing
+	}
 	return nil
 }
 
@@ -188,7 +195,9 @@ func (op *metadataLookup) field(parentFunc *stmt.CallExpr, expr stmt.Expr) {
 	case *stmt.FieldExpr:
 		fieldMeta, ok := op.executeCtx.Schema.Fields.Find(field.Name(e.Name))
 		if !ok {
-			op.err = fmt.Errorf("%w, field: %s", constants.ErrFieldNotFound, e.Name)
+			if op.missing == nil {
+				op.missing = fmt.Errorf("%w, field: %s", constants.ErrFieldNotFound, e.Name)
+			}
 			return
 		}
 
@@ -244,8 +253,11 @@ func (op *metadataLookup) planHistogramFields(e *stmt.CallExpr) {
 	}
 	fieldMetas := op.executeCtx.Schema.GetAllHistogramFields()
 	if len(fieldMetas) == 0 {
-		// metric has no histogram data: without this the plan has no field and the load stages index an empty field list
-		op.err = fmt.Errorf("%w, field: histogram", constants.ErrFieldNotFound)
+		// metric has no histogram data on this node: without any other field the plan would be empty
+		// and the load stages index an empty field list
+		if op.missing == nil {
+			op.missing = fmt.Errorf("%w, field: histogram", constants.ErrFieldNotFound)
+		}
 		return
 	}
 	for _, fieldMeta := range fieldMetas {
